@@ -14,7 +14,7 @@ EXTRACT_DIRECTIVES = ["ExtrOcamlBasic: bool,option,unit,list,prod,sum,sumbool,su
 # per property: generator families (with weights for the number of histories), the mismatch kinds whose presence is a
 # concrete failing input of THAT property ("hard"), and kinds that only show the tie model<->code is broken ("soft").
 PLAN = {
-    "C01": dict(families=["mix", "names", "delay", "rename", "scen", "fault"],
+    "C01": dict(families=["mix", "names", "delay", "rename", "scen", "fault", "full"],
                 hard=["MISMATCH out-missing", "MISMATCH out-name", "MISMATCH out-op", "MISMATCH decode-count", "MISMATCH reader-stalled", "MISMATCH reader-reader-exited", "MISMATCH stalled",
                       "SPEC C01-delete-self-suppressed-but-parent-never-reported"],
                 soft=[]),
@@ -194,8 +194,11 @@ def run_ino_property(run, quick_n=96, thorough_n=2400, steps=45):
     shards = []
     for fam in plan["families"]:
         k = 8 if run.tier == "quick" else 16
+        n_each = max(1, nper // k)
+        if fam == "full":        # each history is one 64 KiB read (about 2000 records): a few are enough
+            k, n_each = (3, 1) if run.tier == "quick" else (8, 3)
         for j in range(k):
-            shards.append((fam, run.seed * 1000 + j * 17 + hash_fam(fam), max(1, nper // k), steps, "%s-%s-%d" % (pid, fam, j)))
+            shards.append((fam, run.seed * 1000 + j * 17 + hash_fam(fam), n_each, steps, "%s-%s-%d" % (pid, fam, j)))
     results = []
     with ThreadPoolExecutor(max_workers=14) as ex:
         futs = [ex.submit(run_script_file, inobin, sp, "%s-%s" % (pid, tag)) for (_, sp, tag) in jobs]
